@@ -17,6 +17,12 @@
 
 package tan
 
+import (
+	"sort"
+
+	"github.com/lni/dragonboat/v4/raftio"
+)
+
 // This file is only compiled with the `verif` build tag. The background
 // goroutine deleting obsolete files is replaced by a job handed to the
 // deterministic simulation harness, which runs the same deleteObsoleteFiles
@@ -48,4 +54,40 @@ func (o *Options) verifOverride() {
 	if o.MaxManifestFileSize == 0 && VerifMaxManifestFileSize > 0 {
 		o.MaxManifestFileSize = VerifMaxManifestFileSize
 	}
+}
+
+// verifIterateRegular and verifIterateMultiplexed visit the dbs of a keeper
+// in key order rather than in Go map order, so that what a simulated run does
+// at close time is a function of its seed.
+func verifIterateRegular(dbs map[raftio.NodeInfo]*db, f func(*db) error) error {
+	keys := make([]raftio.NodeInfo, 0, len(dbs))
+	for k := range dbs {
+		keys = append(keys, k)
+	}
+	sort.Slice(keys, func(i, j int) bool {
+		if keys[i].ShardID != keys[j].ShardID {
+			return keys[i].ShardID < keys[j].ShardID
+		}
+		return keys[i].ReplicaID < keys[j].ReplicaID
+	})
+	for _, k := range keys {
+		if err := f(dbs[k]); err != nil {
+			return err
+		}
+	}
+	return nil
+}
+
+func verifIterateMultiplexed(dbs map[uint64]*db, f func(*db) error) error {
+	keys := make([]uint64, 0, len(dbs))
+	for k := range dbs {
+		keys = append(keys, k)
+	}
+	sort.Slice(keys, func(i, j int) bool { return keys[i] < keys[j] })
+	for _, k := range keys {
+		if err := f(dbs[k]); err != nil {
+			return err
+		}
+	}
+	return nil
 }
